@@ -229,11 +229,9 @@ func computePkgCache(fsCache *cache.Cache, lpkg *listedPackage, pkg *types.Packa
 
 	// Fill the reflect info from SSA, which builds on top of the syntax tree and type info.
 	inspector := reflectInspector{
-		lpkg:            lpkg,
-		pkg:             pkg,
-		checkedAPIs:     make(map[string]bool),
-		propagatedInstr: map[ssa.Instruction]bool{},
-		result:          computed, // append the results
+		lpkg:   lpkg,
+		pkg:    pkg,
+		result: computed, // append the results
 	}
 	if ssaPkg == nil {
 		ssaPkg = ssaBuildPkg(pkg, files, info)
